@@ -41,6 +41,8 @@ func runC04(c *Ctx) {
 	pathspecSeparatorRule(c, "R10")
 	delayedPointersSurviveRounds(c, "R8")
 	treeListingsCoverWholeTree(c, "R7")
+	lsTreePathIsRemainder(c, "R7")
+	smudgeFailureLeavesPointer(c, "R9")
 	run := p.Fn("commands", "(*singleCheckout).Run")
 	if run == nil {
 		c.Missing("R1", "(*singleCheckout).Run", "not found")
